@@ -47,7 +47,7 @@ def main():
             continue
         rec = {"id": sid, "caught_by": [], "inconclusive": [], "wall_s": {}}
         try:
-            for p in ALL:
+            for p in ([sid[:3]] if "--own-only" in args else ALL):
                 t0 = time.time()
                 try:
                     r = sh([os.path.join(VERIF, "check"), p, "--tier", "quick", "--seed", "9"], cwd=VERIF, env=env, timeout=1800)
